@@ -23,7 +23,8 @@ done
 # engines X and K: the whole evidence (minus wall-clock figures and the sample programs shown) must
 # repeat; engine X also across worker counts (engine K simulates one process instance per worker,
 # so its instance counts depend on the worker count by construction)
-for id in ${XIDS:-"C01 C20 C17"}; do
+xids=${XIDS:-C01 C20 C17}
+for id in $xids; do
   rm -f /tmp/verif-det-$id-*.json
   for w in 16 16 5; do
     VERIF_SEED=1 VERIF_WORKERS=$w ./check $id quick >/dev/null 2>&1
@@ -47,5 +48,5 @@ PY
   rm -f /tmp/verif-det-$id-*.json
 done
 # restore default-seed evidence
-for id in $ids ${XIDS:-"C01 C20 C17"}; do VERIF_SEED=1 ./check $id quick >/dev/null 2>&1; done
+for id in $ids $xids; do VERIF_SEED=1 ./check $id quick >/dev/null 2>&1; done
 exit $fail
